@@ -72,7 +72,29 @@ func baseContents() []string {
 	cs = append(cs, "") // empty file
 	// 10..12: ignore files (plain prefixes, a comment, a leading slash)
 	cs = append(cs, "dir/sub\n# comment\nREADME\n", "/dir/f\nz\n", "e2\n# x\n")
+	// 13..15: files whose content zoekt does not index (binary, over SizeMax, too few trigrams): they still get
+	// exactly one document, a placeholder that carries the skip explanation
+	cs = append(cs, "bin\x00ary data here\n", strings.Repeat("a long line of a file over the size limit\n", 8), "ab")
 	return cs
+}
+
+// sizeMax is the SizeMax of every indexing run of this harness (content 14 is larger)
+const sizeMax = 200
+
+// rendered: what the one document of a file must contain — its bytes, or the skip explanation (written from the
+// property statement and the documented skip reasons, not from the builder's code)
+func rendered(content []byte) []byte {
+	switch {
+	case len(content) > sizeMax:
+		return []byte("NOT-INDEXED: exceeds the maximum size limit")
+	case len(content) == 0:
+		return content
+	case len(content) < 3:
+		return []byte("NOT-INDEXED: contains too few trigrams")
+	case bytes.IndexByte(content, 0) >= 0:
+		return []byte("NOT-INDEXED: contains binary content")
+	}
+	return content
 }
 
 func cloneTree(t map[string]ent) map[string]ent {
@@ -348,6 +370,18 @@ func genSpecial(r *gen.Rand, kind string) history {
 			st2,
 			{Index: &indexRec{Delta: true, Branches: re2}, Reordered: true},
 		}
+	case "skipped-content":
+		// files whose content is skipped (binary, over the size limit, too few trigrams) change in delta windows:
+		// text -> skipped, skipped -> text, skipped -> other skipped, new skipped file, skipped file deleted
+		h.Kind = "model"
+		t0 := map[string]ent{"a.txt": file(0), "b.txt": file(1), "c.bin": file(13), "d.big": file(14), "gone.bin": file(13)}
+		t1 := map[string]ent{"a.txt": file(13), "b.txt": file(14), "c.bin": file(2), "d.big": file(15), "new.tiny": file(15), "new.bin": file(13)}
+		t2 := map[string]ent{"a.txt": file(0), "b.txt": file(14), "c.bin": file(14), "d.big": file(3), "new.tiny": file(4)}
+		h.Steps = []stepRec{
+			{Commits: []commitRec{{Branch: "main", Tree: t0, Why: "init"}}, Index: idx(false)},
+			{Commits: []commitRec{{Branch: "main", Tree: t1, Why: "skipped-content"}}, Index: idx(true)},
+			{Commits: []commitRec{{Branch: "main", Tree: t2, Why: "skipped-content"}}, Index: idx(true)},
+		}
 	case "unicode":
 		// only paths with multi-byte characters change between the runs: every tombstone is such a path
 		h.Kind = "model"
@@ -433,7 +467,14 @@ func pickIndexed(r *gen.Rand, branches []string) []string {
 func mutate(r *gen.Rand, t map[string]ent, b string, branches []string, state map[string]map[string]ent, prev []map[string]ent, st *stepRec) string {
 	keys := sortedKeys(t)
 	other := gen.Pick(r, branches)
-	switch r.Intn(13) {
+	switch r.Intn(14) {
+	case 13: // a file's content becomes one that is not indexed (binary, too large, too small), or a new such file appears
+		p := gen.Pick(r, allPaths)
+		if e, ok := t[p]; ok && e.Mode == "160000" || conflicts(t, p) {
+			return "noop"
+		}
+		t[p] = ent{Content: 13 + r.Intn(3), Mode: "100644"}
+		return "skipped-content"
 	case 12: // the ignore file appears, changes or goes away
 		e, ok := t[ignore.IgnoreFile]
 		switch {
@@ -647,6 +688,7 @@ func (rn *runner) run(h history, id string) {
 		}
 	}
 	igDefined := map[string]bool{}
+	seenAt := map[string]map[string]bool{} // path => every blob the history ever had there
 
 	heads := map[string][]gen.GitEntry{} // branch => leaves of its head tree, from git ls-tree
 	contentOf := map[string][]byte{}     // blob hash => content (what the harness wrote)
@@ -664,6 +706,10 @@ func (rn *runner) run(h history, id string) {
 				content := []byte(h.Contents[e.Content])
 				hash := g.Blob(content)
 				contentOf[hash] = content
+				if seenAt[p] == nil {
+					seenAt[p] = map[string]bool{}
+				}
+				seenAt[p][hash] = true
 				es = append(es, gen.GitEntry{Mode: e.Mode, Hash: hash, Path: p})
 			}
 			commit := g.Commit(c.Branch, es, fmt.Sprintf("step %d %s", si, c.Why))
@@ -734,6 +780,7 @@ func (rn *runner) run(h history, id string) {
 				IsDelta:               ix.Delta,
 				DisableCTags:          true,
 				ShardMax:              ix.ShardMax,
+				SizeMax:               sizeMax,
 			},
 			DeltaShardNumberFallbackThreshold: ix.Thr,
 		}
@@ -863,13 +910,33 @@ func (rn *runner) run(h history, id string) {
 			var pairs [][2]int
 			for _, fm := range res.Files {
 				got[fm.FileName]++
-				hash := gen.GitBlobHash(fm.Content)
-				pairs = append(pairs, [2]int{rn.paths.ID(fm.FileName), rn.blobs.ID(hash)})
+				// which blob is this document about: the head's blob if the document is what that blob must be rendered
+				// as (its bytes or its skip explanation), else an earlier blob of the path rendered like this, else unknown
 				wh, ok := want[fm.FileName]
+				hash := gen.GitBlobHash(fm.Content)
+				if ok && bytes.Equal(rendered(contentOf[wh]), fm.Content) {
+					hash = wh
+				} else {
+					var cands []string
+					for hh := range seenAt[fm.FileName] {
+						cands = append(cands, hh)
+					}
+					sort.Strings(cands)
+					for _, hh := range cands {
+						if bytes.Equal(rendered(contentOf[hh]), fm.Content) {
+							hash = hh
+							break
+						}
+					}
+				}
+				if bytes.HasPrefix(fm.Content, []byte("NOT-INDEXED: ")) {
+					rn.w.Count("view-doc:placeholder", 1)
+				}
+				pairs = append(pairs, [2]int{rn.paths.ID(fm.FileName), rn.blobs.ID(hash)})
 				switch {
 				case !ok:
 					verdict, key = fmt.Sprintf("branch %s: document %q but the head has no such file", b, fm.FileName), "doc-for-absent-path"
-				case !bytes.Equal(contentOf[wh], fm.Content):
+				case !bytes.Equal(rendered(contentOf[wh]), fm.Content):
 					verdict, key = fmt.Sprintf("branch %s: document %q has content %q, head has %q", b, fm.FileName, fm.Content, contentOf[wh]), "stale-content"
 				case !contains(fm.Branches, b):
 					verdict, key = fmt.Sprintf("branch %s: document %q reports branches %v", b, fm.FileName, fm.Branches), "branch-list"
@@ -1045,7 +1112,7 @@ func main() {
 		}
 	}
 	for i := 0; i < f.N(1, 10); i++ {
-		for _, kind := range []string{"gitlink", "ignore", "ignore-change", "head-not-first", "branch-reorder", "unicode"} {
+		for _, kind := range []string{"gitlink", "ignore", "ignore-change", "head-not-first", "branch-reorder", "unicode", "skipped-content"} {
 			rn.run(genSpecial(r.Fork(), kind), kind)
 		}
 	}
